@@ -29,14 +29,17 @@ const (
 // ---------------------------------------------------------------- server log
 
 type world struct {
-	log      []string
-	produced int
-	slice    int
-	chanLim  int
-	useSeq   bool
+	log           []string
+	produced      int
+	slice         int
+	chanLim       int
+	useSeq        bool
+	tooLongAt     int
+	chanTooLongAt int
+	diffLimit     int
 }
 
-func isC(k string) bool  { return k == "M" || k == "O" }
+func isC(k string) bool  { return k == "M" || k == "O" || k == "A" }
 func isQ(k string) bool  { return k == "Q" || k == "E" }
 func isCh(k string) bool { return k == "CM" || k == "CO" }
 
@@ -56,7 +59,14 @@ func (w *world) seqno(i int) int {
 	if !w.useSeq {
 		return 0
 	}
-	return w.pos(i, func(k string) bool { return isC(k) || isQ(k) })
+	return w.pos(i, func(k string) bool { return (isC(k) && k != "A") || isQ(k) })
+}
+
+func (w *world) diffLim() int {
+	if w.diffLimit > 0 {
+		return w.diffLimit
+	}
+	return 100
 }
 
 func (w *world) msg(i int) *tg.Message {
@@ -267,6 +277,16 @@ func (r *run) UpdatesGetDifference(ctx context.Context, req *tg.UpdatesGetDiffer
 		r.event(tr.M{"ev": "diff", "k": "c", "pts": req.Pts, "qts": req.Qts, "empty": true})
 		return &tg.UpdatesDifferenceEmpty{Date: 0, Seq: w.seqno(w.produced)}, nil
 	}
+	npc := 0
+	for _, i := range p {
+		if isC(w.log[i-1]) {
+			npc++
+		}
+	}
+	if w.tooLongAt > 0 && npc >= w.tooLongAt {
+		r.event(tr.M{"ev": "diff", "k": "c", "pts": w.cpos(w.produced), "qts": req.Qts, "empty": false})
+		return &tg.UpdatesDifferenceTooLong{Pts: w.cpos(w.produced)}, nil
+	}
 	s := p
 	final := true
 	if w.slice > 0 && len(p) > w.slice {
@@ -287,6 +307,8 @@ func (r *run) UpdatesGetDifference(ctx context.Context, req *tg.UpdatesGetDiffer
 			msgs = append(msgs, w.msg(i))
 		case "E":
 			enc = append(enc, &tg.EncryptedMessage{RandomID: int64(i), ChatID: 5})
+		case "A":
+			// a pts increment with nothing to deliver: only the state of the difference reflects it
 		default:
 			oth = append(oth, w.upd(i))
 		}
@@ -311,6 +333,13 @@ func (r *run) UpdatesGetChannelDifference(ctx context.Context, req *tg.UpdatesGe
 	if len(p) == 0 {
 		r.event(tr.M{"ev": "diff", "k": "ch", "pts": req.Pts, "qts": 0, "empty": true})
 		return &tg.UpdatesChannelDifferenceEmpty{Final: true, Pts: req.Pts}, nil
+	}
+	if w.chanTooLongAt > 0 && len(p) >= w.chanTooLongAt {
+		np := w.chpos(w.produced)
+		r.event(tr.M{"ev": "diff", "k": "ch", "pts": np, "qts": 0, "empty": false})
+		d := &tg.Dialog{Peer: &tg.PeerChannel{ChannelID: chanID}}
+		d.SetPts(np)
+		return &tg.UpdatesChannelDifferenceTooLong{Final: true, Dialog: d}, nil
 	}
 	s := p
 	final := true
@@ -352,7 +381,7 @@ func (r *run) newClient() *client {
 		}{v, 99}
 	}
 	vs := updates.NewVerifState(updates.VerifStateConfig{
-		State: r.st, Channels: ch, API: r, Handler: r, Storage: r, Hasher: r, SelfID: selfID, DiffLimit: 100,
+		State: r.st, Channels: ch, API: r, Handler: r, Storage: r, Hasher: r, SelfID: selfID, DiffLimit: r.w.diffLim(),
 		OnTooLong: func(id int64) {
 			r.mu.Lock()
 			r.event(tr.M{"ev": "tl", "k": "ch"})
@@ -379,6 +408,10 @@ func (c *client) diffBody(f func() error) {
 	c.r.mu.Unlock()
 }
 
+// diffBodyIf runs a channel step; handler calls made by a difference inside it (updateChannelTooLong) are
+// marked by the API mock, see inAPIDiff.
+func (c *client) diffBodyIf(f func() error) { _ = f() }
+
 func (c *client) noteTracked(before bool) {
 	if !before && c.tracked() {
 		c.chSub = true
@@ -399,7 +432,11 @@ func (c *client) chanDiff() {
 	c.chSub = false
 	c.diffBody(func() error { return c.vs.ChanGetDifference(chanID, "verif") })
 }
-func (c *client) chanStep() bool { ok, _ := c.vs.ChanStep(chanID); return ok }
+func (c *client) chanStep() bool {
+	var ok bool
+	c.diffBodyIf(func() error { var err error; ok, err = c.vs.ChanStep(chanID); return err })
+	return ok
+}
 func (c *client) internal() bool {
 	b := c.tracked()
 	ok, _ := c.vs.MainStepInternal()
@@ -494,6 +531,16 @@ func (c *client) step(a action) {
 		c.push([]int{a.i}, sq)
 	case "push2":
 		c.push([]int{a.i, a.j}, 0)
+	case "affected":
+		_ = c.vs.HandleAffected(0, c.r.w.cpos(a.i), 1)
+	case "chantl":
+		u := &tg.UpdateChannelTooLong{ChannelID: chanID}
+		if a.ws {
+			u.SetPts(a.i)
+		}
+		b := c.tracked()
+		_ = c.vs.HandleUpdates(&tg.Updates{Updates: []tg.UpdateClass{u}})
+		c.noteTracked(b)
 	case "recover":
 		c.recover()
 	case "chansub", "chandiff":
@@ -527,6 +574,7 @@ func play(out *tr.W, trace int, cs tr.M, crashAt int, final bool, opts world) in
 	if v, ok := cs["useseq"]; ok {
 		w.useSeq = tr.Bool(v)
 	}
+	w.tooLongAt, w.chanTooLongAt, w.diffLimit = tr.Int(cs["toolong"]), tr.Int(cs["chantoolong"]), tr.Int(cs["difflimit"])
 	tracked0 := tr.Bool(cs["tracked0"])
 	r := &run{w: w, out: out, fuse: -1, chPts: map[int64]int{}}
 	if tracked0 {
